@@ -25,7 +25,7 @@ def lex_records(inputs, obs):
     recs = []
     for cid, data in inputs:
         o = obs[cid]
-        recs.append({"id": cid, "inp": list(data), "orc": o.get("orc") or [], "real": o.get("lex") or [],
+        recs.append({"id": cid, "inp": list(data), "orc": o.get("orc") or [], "rx": o.get("rx") or [], "real": o.get("lex") or [],
                      "rerr": o.get("err_idx", -1), "rpanic": bool(o.get("panic"))})
     return recs
 
